@@ -8,6 +8,7 @@ CONSTANTS
   DEV_CopyMisMaps = FALSE
   DEV_PickleNoRebuild = FALSE
   DEV_AddRebuildsFirst = TRUE
+  DEV_DeferredRemoveKeepsPolygon = FALSE
   DEV_DiscHalfRadius = FALSE
 INVARIANT TypeOK
 INVARIANT IndexMirrors
